@@ -432,7 +432,13 @@ def _inline_async_body(f, bi, stub, body):
         B['s'].append({'k': 'a', 'd': [l, []], 'r': {'k': 'use', 'o': a}, 'l': line})
         src = a.get('m', a.get('c')) if isinstance(a, dict) else None
         if src is not None and not src[1] and f['locals'][l].get('h') == 'param':
-            f['locals'][l] = copy.deepcopy(f['locals'][src[0]])
+            pname = f['locals'][l].get('s')
+            conc = copy.deepcopy(f['locals'][src[0]])
+            f['locals'][l] = conc
+            # the same generic parameter on the callee's own temporaries (`move _x` handed on to a runner)
+            for kk in range(base, base + len(body['locals'])):
+                if f['locals'][kk].get('h') == 'param' and f['locals'][kk].get('s') == pname:
+                    f['locals'][kk] = copy.deepcopy(conc)
 
     def mp(p):
         l, proj = p
@@ -560,6 +566,18 @@ def _mentions(j, fid):
     return False
 
 
+def _async_ok(stub, body):
+    """experiment switch: PEARL_INLINE_ASYNC=small restricts async inlining to small bodies; =off disables it"""
+    import os
+    mode = os.environ.get('PEARL_INLINE_ASYNC', 'all')
+    if mode == 'off':
+        return False
+    if mode == 'small':
+        live = [b for b in body['blocks'] if not b['c']]
+        return len(live) <= 60
+    return True
+
+
 def _reparent(j, gid, new_parent, old_root=None):
     """closures / coroutines nested in an inlined function become children of the (single) caller"""
     np = next((f for f in j['fns'] if f['id'] == new_parent), None)
@@ -590,13 +608,17 @@ def inline_new_thin(j, known):
         thin = {}
         new_async = {}
         for g in j['fns']:
-            if g['id'] in known or sites.get(g['id'], 0) == 0 or sites.get(g['id'], 0) > MAX_SITES:
+            if g['id'] in known or sites.get(g['id'], 0) == 0:
                 continue
+            bodyg = fns.get(g['id'] + '::{closure#0}') if g.get('async') else g
+            small = bodyg is not None and len([b for b in bodyg['blocks'] if not b['c']]) <= (40 if g.get('async') else 14)
+            if sites.get(g['id'], 0) > MAX_SITES and not small:
+                continue      # a thin wrapper may be used everywhere; a big new function called from many places is left alone
             if _is_thin_sync(g, known, parents):
                 thin[g['id']] = copy.deepcopy(g)
             elif g.get('async'):
                 body = fns.get(g['id'] + '::{closure#0}')
-                if body is not None and _is_new_async(g, body, known):
+                if body is not None and _is_new_async(g, body, known) and _async_ok(g, body):
                     new_async[g['id']] = (copy.deepcopy(g), copy.deepcopy(body))
         if not thin and not new_async:
             break
